@@ -602,7 +602,7 @@ pub fn genesis_read_then_build(r: &proto::Genesis) -> (res: Result<proto::Genesi
 
 
 def build(repo):
-    U = Unit("conv", ["C09"], desc="ProtoFmt conversions round-trip", uses=T.USES + "\nuse std::sync::Arc;")
+    U = Unit("conv", ["C09"], desc="ProtoFmt conversions round-trip", uses=T.USES + "\nuse std::sync::Arc;", crate_attrs="#![feature(allocator_api)]")
     U.repo = repo
     T.add_base_types(U)
     U.tail_subs = list(U.tail_subs) + [("time::UNIX_EPOCH", "utc_unix_epoch()", None)]
@@ -613,7 +613,7 @@ def build(repo):
     U.item(Q.F_RT, "struct ReplicaTimeout")
     proto_txt, prov = protogen.generate(repo, PROTO_FILES, derive="")
     U.raw(proto_txt, label="R-proto: prost message types generated from " + ", ".join(f for f, _ in prov))
-    U.raw(PRELUDE + common.STD_MIN, label="prelude conv")
+    U.raw(PRELUDE + common.STD_MIN + common.STD_VEC_DEDUP, label="prelude conv")
     U.raw(LEAVES, label="leaf impls (assumed)")
     # helpers of proto_fmt.rs
     HH = [("anyhow::Result<&T>", "Result<&T, AnyhowError>", None), ("anyhow::Result<T>", "Result<T, AnyhowError>", None),
